@@ -120,6 +120,7 @@ type sreq struct {
 	cstate   string // position when its context was cancelled ("" = never; "pre" = before the call)
 	entered  bool
 	enq      bool
+	closer   bool
 	state    string
 }
 
@@ -406,6 +407,10 @@ func (ru *srun) settle() {
 			r.enq = true
 			ru.events = append(ru.events, fmt.Sprintf("+q%d", r.id))
 		}
+		if r.state == "C" && !r.closer { // parked inside closeWithError: it is the (first) closer
+			r.closer = true
+			ru.events = append(ru.events, fmt.Sprintf("+k%d", r.id))
+		}
 	}
 	// 3. returns
 	for _, r := range ru.order {
@@ -415,15 +420,18 @@ func (ru *srun) settle() {
 		r.reported = true
 		o := "err"
 		switch {
+		case r.kind == 'x':
+			o = "shut" // Session.Close returned: not a write
 		case r.err == nil:
 			o = "ok"
 		case (r.cstate == "pre" || r.cstate == "S" || r.cstate == "E") && errors.Is(r.err, context.Canceled):
 			o = "cancel"
-		case strings.HasPrefix(r.err.Error(), "crash:"):
-			o = "crash"
 		}
-		if r.cstate == "R" || r.cstate == "G" || r.cstate == "W" || r.cstate == "C" || strings.HasPrefix(r.cstate, "?") {
+		if r.kind != 'x' && (r.cstate == "R" || r.cstate == "G" || r.cstate == "W" || r.cstate == "C" || strings.HasPrefix(r.cstate, "?")) {
 			o = "late" // cancelled after its write had begun: any outcome
+		}
+		if r.err != nil && strings.HasPrefix(r.err.Error(), "crash:") {
+			o = "crash"
 		}
 		ru.events = append(ru.events, fmt.Sprintf("+r%d:%s", r.id, o))
 		ru.trace = append(ru.trace, fmt.Sprintf("r%d:%s", r.id, o))
@@ -456,7 +464,7 @@ func (ru *srun) identify(w *gwrite, f *gframe) int {
 	}
 	if len(fr) == 1 && fr[0].Op == memcluster.OpOptions {
 		for _, r := range ru.order {
-			if r.kind == 'h' && !r.entered {
+			if r.kind == 'h' && !r.entered && r.state != "D" {
 				return r.id
 			}
 		}
